@@ -473,6 +473,9 @@ impl C17 {
                 if abs_sinks && g.adj[i] == 0 {
                     let outline = raw::Polygon { points: vec![raw::Point::new(0, 0), raw::Point::new(5, 0), raw::Point::new(5, 5), raw::Point::new(0, 5)] };
                     Ptr::new(raw::Cell::from(raw::Abstract::new(names[i].clone(), outline)))
+                } else if variant == 4 && g.adj[i] == 0 {
+                    // a sink without any view (a placeholder cell): still a cell of the ordering
+                    Ptr::new(raw::Cell { name: names[i].clone(), ..Default::default() })
                 } else {
                     Ptr::new(raw::Cell::from(raw::Layout { name: names[i].clone(), insts: vec![], elems: vec![], annotations: vec![] }))
                 }
@@ -519,6 +522,10 @@ impl C17 {
             self.run_raw_variant(g, listing, key, 3, cx);
             cx.tag("raw-cells-sharing-a-name");
         }
+        if (0..g.n).any(|i| g.adj[i] == 0) {
+            self.run_raw_variant(g, listing, key, 4, cx);
+            cx.tag("raw-viewless-sinks");
+        }
     }
     fn run_raw_variant(&self, g: &Graph, listing: &[usize], key: &str, variant: u8, cx: &mut Cx) {
         cx.stats.executions += 2;
@@ -529,7 +536,7 @@ impl C17 {
                 .map(|v| v.iter().map(|p| Self::idx_of(&names, &p.read().unwrap().layout.as_ref().map(|l| l.name.clone()).unwrap_or_else(|| p.read().unwrap().name.clone()))).collect::<Vec<usize>>())
                 .map_err(|e| format!("{e:?}"))
         });
-        self.judge(key, ["raw-DepOrder", "raw-DepOrder+abstract-only-sinks", "raw-DepOrder+both-views", "raw-DepOrder+cells-sharing-a-name"][variant as usize], g, listing, res, cx);
+        self.judge(key, ["raw-DepOrder", "raw-DepOrder+abstract-only-sinks", "raw-DepOrder+both-views", "raw-DepOrder+cells-sharing-a-name", "raw-DepOrder+viewless-sinks"][variant as usize], g, listing, res, cx);
         if variant == 3 {
             // (the protobuf schema refers to cells by name: not exported)
             for p in lib.cells.iter() {
@@ -540,7 +547,7 @@ impl C17 {
             return;
         }
         let res = guard(|| lib.to_proto().map(|p| p.cells.iter().map(|c| Self::idx_of(&names, &c.name)).collect::<Vec<usize>>()).map_err(|e| format!("{e:?}")));
-        self.judge(key, ["raw-to_proto", "raw-to_proto+abstract-only-sinks", "raw-to_proto+both-views"][variant as usize], g, listing, res, cx);
+        self.judge(key, ["raw-to_proto", "raw-to_proto+abstract-only-sinks", "raw-to_proto+both-views", "raw-to_proto+cells-sharing-a-name", "raw-to_proto+viewless-sinks"][variant as usize], g, listing, res, cx);
         // break the reference cycles so that the memory is freed
         for p in lib.cells.iter() {
             if let Ok(mut c) = p.write() {
@@ -1091,7 +1098,7 @@ impl Driver for C17 {
         let m = tier.pick(3, 4);
         Describe {
             rule: format!(
-                "generic utils::DepOrder: every labelled digraph on 1..=4 nodes including self-loops (2^(n*n)) x every ordered non-empty sub-list of the nodes as the item slice (so reachable != all) and every listing that names a node more than once (up to n + 1 entries for n <= 3, up to 3 entries for n = 4); every loop-free digraph on 5 nodes (2^20) x {} listing orders. Embedded orderers through public entry points, every digraph on 1..={m} nodes with self-loops{} x every listing permutation, edges realised as instances / SREF+AREF / relative placements, raw and tetris graphs additionally with every sink cell abstract-only (no layout view), tetris graphs with every sink cell wrapping a raw layout, with every cell holding both an abstract and a layout view, and (raw DepOrder) with all cells going by one and the same name: raw DepOrder::order and Library::to_proto (cell list order), Library::from_gds (imported cell order; also with struct names that differ only in letter case), tetris Library::dep_order (and once more on the same library object after one more instance was added; and on the not yet placed library whose instances are placed relative to one another), tetris ProtoExporter::export, Placer::place (cell graph), RawExporter::convert on acyclic graphs whose edges are arrays handed over in Layout::places (raw cell order), and Placer::place over every functional relation graph on 1..={m} instances ((n+1)^n: chains, stars, trees, self-loops, cycles) x every listing permutation, each also with the last listed instance present but not listed in the layout (reachable only through a relation), with the relatively placed instances handed over in Layout::places instead of Layout::instances, and with the first listed instance named a second time in Layout::places. A state is (orderer, graph, listing); non-trivial = graph has at least one edge. Oracle: reachable set by DFS, cycle by Kahn elimination; Ok order must be exactly the reachable set, duplicate-free, every node after all its dependencies; reachable cycle => Err.",
+                "generic utils::DepOrder: every labelled digraph on 1..=4 nodes including self-loops (2^(n*n)) x every ordered non-empty sub-list of the nodes as the item slice (so reachable != all) and every listing that names a node more than once (up to n + 1 entries for n <= 3, up to 3 entries for n = 4); every loop-free digraph on 5 nodes (2^20) x {} listing orders. Embedded orderers through public entry points, every digraph on 1..={m} nodes with self-loops{} x every listing permutation, edges realised as instances / SREF+AREF / relative placements, raw and tetris graphs additionally with every sink cell abstract-only (no layout view), tetris graphs with every sink cell wrapping a raw layout, with every cell holding both an abstract and a layout view, (raw) with every sink cell holding no view at all, and (raw DepOrder) with all cells going by one and the same name: raw DepOrder::order and Library::to_proto (cell list order), Library::from_gds (imported cell order; also with struct names that differ only in letter case), tetris Library::dep_order (and once more on the same library object after one more instance was added; and on the not yet placed library whose instances are placed relative to one another), tetris ProtoExporter::export, Placer::place (cell graph), RawExporter::convert on acyclic graphs whose edges are arrays handed over in Layout::places (raw cell order), and Placer::place over every functional relation graph on 1..={m} instances ((n+1)^n: chains, stars, trees, self-loops, cycles) x every listing permutation, each also with the last listed instance present but not listed in the layout (reachable only through a relation), with the relatively placed instances handed over in Layout::places instead of Layout::instances, and with the first listed instance named a second time in Layout::places. A state is (orderer, graph, listing); non-trivial = graph has at least one edge. Oracle: reachable set by DFS, cycle by Kahn elimination; Ok order must be exactly the reachable set, duplicate-free, every node after all its dependencies; reachable cycle => Err.",
                 if tier.is_thorough() { "all 120" } else { "8 (identity, reverse, 4 rotations, one shuffle)" },
                 if tier.is_thorough() { " and every digraph on 5 nodes without self-loops (2^20)" } else { "" }
             ),
